@@ -1246,6 +1246,18 @@ def ctor_model(self, e, st, spec):
         if s is not None:
             return alloc(st, {"$cls": "SetUnit" if s["elem"] == UnitDT else "SetStr", "mem": s["mem"], "n": s["n"],
                               "seq": s["seq"], "idx": s["idx"]})
+        if isinstance(v, SList) and len(v.elems.cs) == 1 and v.elems.cs[0].sort().range() == R:
+            # SortedSet(list of strings): the set of the list's elements (with the model's enumeration invariant)
+            new = fresh_set(V.fresh_name("setof"), R)
+            x, k = V.fresh("x", R), V.fresh("k", I)
+            st.assume(z3.ForAll(x, new["mem"][x] == z3.Exists(k, z3.And(0 <= k, k < v.length, v.elems.cs[0][k] == x)),
+                                patterns=[new["mem"][x]]))
+            st.assume(*wf_set(new["mem"], new["n"], new["seq"], new["idx"]))
+            # cardinality: never more elements than the list has; exactly as many when the list has no duplicate
+            k2 = V.fresh("k2", I)
+            nodup = z3.ForAll([k, k2], z3.Implies(z3.And(0 <= k, k < k2, k2 < v.length), v.elems.cs[0][k] != v.elems.cs[0][k2]))
+            st.assume(new["n"] <= v.length, z3.Implies(nodup, new["n"] == v.length))
+            return alloc(st, new)
         return NotImplemented
     if name == "deepcopy" and len(e.args) == 1:
         v = self.ev(e.args[0], st, spec)
